@@ -472,9 +472,68 @@ fn run_free_op(line: &str) -> String {
             }))
         }
         "A" => or_panic(guarded(|| run_trace_ast(&toks[1..]))),
+        "E6" | "E5" => or_panic(guarded(|| run_sweep_block(toks[0], toks[1].parse().expect("block")))),
         "" => String::new(),
         _ => format!("UNKNOWN-OP {}", toks[0]),
     }
+}
+
+pub const SWEEP_BLOCK: u64 = 4096;
+pub const ALPHA6: &[&[u8]] = &[b"a", b" ", b"-", b">", b":", b"#", b"\n", b"\r", b"1"];
+pub const ALPHA5: &[&[u8]] = &[b"    ", b"a", b"b.c", b" ", b" -> ", b":", b"(", b")", b"1", b"#", b"x:", b"\n"];
+pub fn sweep_total(k: u64, maxlen: u32) -> u64 {
+    (0..=maxlen).map(|l| k.pow(l)).sum()
+}
+/// the idx-th string in length-then-lexicographic order over the token alphabet
+pub fn sweep_string(alpha: &[&[u8]], maxlen: u32, mut idx: u64) -> Option<Vec<u8>> {
+    let k = alpha.len() as u64;
+    let mut len = 0u32;
+    loop {
+        if len > maxlen {
+            return None;
+        }
+        let n = k.pow(len);
+        if idx < n {
+            break;
+        }
+        idx -= n;
+        len += 1;
+    }
+    let mut digits = vec![0usize; len as usize];
+    for d in digits.iter_mut().rev() {
+        *d = (idx % k) as usize;
+        idx /= k;
+    }
+    let mut out = Vec::new();
+    for d in digits {
+        out.extend_from_slice(alpha[d]);
+    }
+    Some(out)
+}
+fn fnv(h: &mut u64, bytes: &[u8]) {
+    for b in bytes {
+        *h ^= *b as u64;
+        *h = h.wrapping_mul(0x100000001b3);
+    }
+}
+/// bounded-exhaustive sweeps: one digest per block of 4096 inputs
+fn run_sweep_block(kind: &str, block: u64) -> String {
+    let (alpha, maxlen) = if kind == "E6" { (ALPHA6, 7) } else { (ALPHA5, 6) };
+    let mut h: u64 = 0xcbf29ce484222325;
+    let mut n = 0;
+    for idx in block * SWEEP_BLOCK..(block + 1) * SWEEP_BLOCK {
+        let Some(s) = sweep_string(alpha, maxlen, idx) else { break };
+        let line = if kind == "E6" {
+            let v: Vec<String> = ProguardMapping::new(&s).iter().map(|it| show_item(&it)).collect();
+            v.join(";")
+        } else {
+            show_item(&ProguardRecord::try_parse(&s))
+        };
+        fnv(&mut h, line.as_bytes());
+        fnv(&mut h, b"\n");
+        n += 1;
+    }
+    format!("dg={:016x};n={}", h, n)
 }
 
 /// builds a StackTrace from the AST tokens through the public constructors, prints it,
